@@ -26,16 +26,41 @@ KF_COPY = "C35-copy-to-options-dropped"
 KF_LIMIT = "C35-limit-zero-skip-expression-dropped"
 KF_QUALIFY = "C35-unqualified-column-requalified-by-decoder"
 KF_FETCH = "C35-limit-fetch-none-decoded-as-i64-max"
+KF_UNION = "C35-nested-union-flattened-by-decoder"
 
-# (key, required substring of the original plan text, normaliser applied to both lines of every differing line pair)
+# (key, required substring of some differing line, normaliser applied to both lines of every differing line pair)
 TEXT_CLASSES = [
-    (KF_VALUES, "Values:", lambda t: t.replace(";N", "")),
-    (KF_CTE, "RecursiveQuery", lambda t: re.sub(r"(TableScan: \S+) projection=\[[^\]]*\]", r"\1", t)),
+    (KF_CTE, "TableScan:", lambda t: re.sub(r"(TableScan: \S+) projection=\[[^\]]*\]", r"\1", t)),
     (KF_EMPTY, "EmptyRelation:", lambda t: re.sub(r"EmptyRelation: rows=(\d+) \[[^\]]*\]", r"EmptyRelation: rows=\1 []", t)),
     (KF_COPY, "CopyTo:", lambda t: re.sub(r"options: \([^)]*\)", "options: ()", t)),
     (KF_FETCH, "Limit:", lambda t: re.sub(r"(Limit: skip=\d+, fetch=)(None|9223372036854775807)\b", r"\1None", t)),
+    (KF_VALUES, "", lambda t: t.replace(";N", "")),
     (KF_QUALIFY, "", lambda t: re.sub(r"\b[A-Za-z_]\w*\.(?=[A-Za-z_])", "", t)),
 ]
+
+
+def flatten_unions(text):
+    """remove `Union [..]` lines whose parent line is a Union (and dedent their subtrees): the decoder's LogicalPlanBuilder::union flattens"""
+    lines = text.split("\n")
+    ind = lambda l: len(l) - len(l.lstrip(" "))
+    changed = True
+    while changed:
+        changed = False
+        for i, l in enumerate(lines):
+            if not l.strip().startswith("Union"):
+                continue
+            k = i - 1
+            while k >= 0 and ind(lines[k]) >= ind(l):
+                k -= 1
+            if k >= 0 and lines[k].strip().startswith("Union") and ind(lines[k]) == ind(l) - 2:
+                j = i + 1
+                while j < len(lines) and lines[j].strip() and ind(lines[j]) > ind(l):
+                    lines[j] = lines[j][2:]
+                    j += 1
+                del lines[i]
+                changed = True
+                break
+    return "\n".join(lines)
 
 
 def classify_plan(st):
@@ -43,7 +68,7 @@ def classify_plan(st):
     why, plan = st.get("why") or "", st.get("plan") or ""
     if "Explain.stringified_plans" in why:
         return KF_EXPLAIN
-    if why.startswith("decoding failed: Schema error: No field named") and re.search(r"EmptyRelation: rows=\d+ \[[^\]]+\]", plan):
+    if why.startswith("decoding failed") and re.search(r"No field named|FieldNotFound", why) and re.search(r"EmptyRelation: rows=\d+ \[[^\]]+\]", plan):
         return KF_EMPTY      # the decoded EmptyRelation has no columns, so the nodes above it cannot be rebuilt
     if re.search(r"expression of Limit differs: Literal\(Int64\(0\), None\) vs |not PartialEq-equal to the original: Limit: number of expressions differs", why):
         return KF_LIMIT
@@ -52,10 +77,16 @@ def classify_plan(st):
         norm = lambda x: re.sub(r'(Placeholder \{ id: "[^"]*", field: Some\(Field \{ name: )"[^"]*"', r'\1""', x)
         if norm(m.group(1)) == norm(m.group(2)):
             return KF_PLACEHOLDER
-    if why.startswith("display_indent_schema differs after the round trip:\n") and st.get("diff"):
-        for key, need, f in TEXT_CLASSES:
-            if need in plan and all(f(a) == f(b) for a, b in st["diff"]):
-                return key
+    if why.startswith("display_indent_schema differs after the round trip:\n"):
+        if st.get("diff"):
+            for key, need, f in TEXT_CLASSES:
+                if any(need in a for a, _ in st["diff"]) and all(f(a) == f(b) for a, b in st["diff"]):
+                    return key
+        elif "Union" in plan and not plan.endswith("..."):
+            back = why.split("\n", 1)[1]
+            nn = lambda t: t.replace(";N", "").rstrip("\n")
+            if nn(flatten_unions(plan)) == nn(back) and nn(plan) != nn(back):
+                return KF_UNION
     return None
 
 
